@@ -33,6 +33,52 @@ def scaled(x):
     return int(Fraction(x) * 1000)
 
 # ------------------------------------------------------------------ generation
+def edit_exons(rng, world, stats):
+    """edits on top of gen_world: abutting exons (zero-length intron), 1-nt introns and 1-nt exons on transcripts of
+    either strand.  An edited transcript loses its CDS (the exon structure no longer carries the designed ORF);
+    parseCIRCexplorer does not read it.  Gene spans are recomputed."""
+    for gene in world['genes']:
+        for tx in gene['transcripts']:
+            if len(tx['exons']) < 2 or rng.random() < 0.35:
+                continue
+            ex = [list(e) for e in tx['exons']]       # edit a copy; commit only a well-formed result
+            done = []
+            for _ in range(rng.choice([1, 1, 2, 3])):
+                kind = rng.choice(['abut', 'abut', 'intron1', 'exon1'])
+                k = rng.randrange(len(ex) - 1)
+                if kind == 'abut':
+                    if rng.random() < 0.5:
+                        ex[k][1] = ex[k + 1][0]
+                    else:
+                        ex[k + 1][0] = ex[k][1]
+                elif kind == 'intron1':
+                    if rng.random() < 0.5:
+                        ex[k][1] = ex[k + 1][0] - 1
+                    else:
+                        ex[k + 1][0] = ex[k][1] + 1
+                else:
+                    j = rng.randrange(len(ex))
+                    if rng.random() < 0.5:
+                        ex[j][1] = ex[j][0] + 1
+                    else:
+                        ex[j][0] = ex[j][1] - 1
+                done.append(kind)
+            if all(a < b for a, b in ex) and all(ex[i][1] <= ex[i + 1][0] for i in range(len(ex) - 1)):
+                for kind in done:
+                    stats[kind] = stats.get(kind, 0) + 1
+                tx['exons'] = ex
+                tx['edited'] = sorted(set(done))
+                tx['cds'] = None
+                tx['protein_id'] = None
+                tx['sec'] = []
+                tx['tags'] = [t for t in tx['tags'] if t not in ('cds_start_NF', 'mRNA_end_NF')]
+                tx['biotype'] = 'processed_transcript'
+            else:       # the combination of edits emptied or crossed an exon: leave the transcript as it was
+                stats['rejected_edit'] = stats.get('rejected_edit', 0) + 1
+        gene['start'] = min(t['exons'][0][0] for t in gene['transcripts'])
+        gene['end'] = max(t['exons'][-1][1] for t in gene['transcripts'])
+    return world
+
 def mk_row(gene, tx, start, end, sizes, offsets, typ='circRNA', reads=5, fpb='1.500', score='0.500', kind=''):
     return {'chrom': gene['chrom'], 'start': start, 'end': end, 'strand': '+' if gene['strand'] == 1 else '-',
             'sizes': sizes, 'offsets': offsets, 'reads': reads, 'type': typ, 'gene_name': gene['name'], 'tx': tx['id'],
@@ -62,8 +108,16 @@ def gen_rows(rng, world, thr, sr, er, malformed):
             # contiguous runs
             runs = [(i, j) for i in range(n) for j in range(i, n)]
             rng.shuffle(runs)
-            for i, j in runs[:6]:
+            for i, j in (runs if tx.get('edited') else runs[:6]):
                 rows.append(row_from_blocks(gene, tx, ex[i:j + 1], **kw('run')))
+            if tx.get('edited'):
+                # every exon subset of a transcript with abutting exons / 1-nt introns / 1-nt exons
+                import itertools
+                subsets = [c for m in range(2, n + 1) for c in itertools.combinations(range(n), m) if c[-1] - c[0] + 1 != m]
+                if len(subsets) > 40:
+                    subsets = rng.sample(subsets, 40)
+                for sub in subsets:
+                    rows.append(row_from_blocks(gene, tx, [ex[k] for k in sub], **kw('subset_edited')))
             # non-contiguous subsets
             for _ in range(2):
                 if n >= 3:
@@ -94,7 +148,7 @@ def gen_rows(rng, world, thr, sr, er, malformed):
                 rows.append(r)
             # ciRNA: every intron, start/end moved around the tolerances
             for k in range(n - 1):
-                a, b = ex[k][1], ex[k + 1][0]          # intron [a, b)
+                a, b = ex[k][1], ex[k + 1][0]          # intron [a, b)  (may be empty: abutting exons)
                 shifts = [(0, 0)]
                 for _ in range(5):
                     shifts.append((rng.randint(sr[0] - 2, sr[1] + 2), rng.randint(er[0] - 2 if er[0] > -20 else -6, er[1] + 2)))
@@ -137,8 +191,8 @@ def gen_rows(rng, world, thr, sr, er, malformed):
     rng.shuffle(rows)
     return rows
 
-def gen_case(rng, world, malformed=False):
-    ce3 = rng.random() < 0.5
+def gen_case(rng, world, malformed=False, ce3=None):
+    ce3 = (rng.random() < 0.5) if ce3 is None else ce3
     thr = {'reads': rng.choice([1, 1, 2, 5])}
     if ce3:
         thr['fpb'] = rng.choice([None, '0', '0.500', '1.500', '2.250'])
@@ -306,6 +360,8 @@ def evaluate(ctx, cases):
         else:
             exp = ERR[m[0]]
         exp_by_case.setdefault(ci, {})[ri] = exp
+        if t.get('edited'):
+            bump('edited_tx/%s/%s/%s' % ('+'.join(t['edited']), '+' if g['strand'] == 1 else '-', 'accepted' if isinstance(got, dict) else got))
         bump('%s/%s/%s/%s' % (row['type'], row['kind'], '+' if g['strand'] == 1 else '-', 'accepted' if isinstance(got, dict) else got))
         if isinstance(got, dict):
             st['nontrivial'].add((ci, ri))
@@ -388,14 +444,20 @@ def evaluate(ctx, cases):
     return viol, st
 
 # ------------------------------------------------------------------ driver
+EDIT_STATS = {}
+
 def gen_cases(ctx):
     rng = ctx.rng
+    EDIT_STATS.clear()
     n_world = 200 if ctx.quick else 1500
     cases = []
     for wi in range(n_world):
         w = G.gen_world(rng, small=True, n_chrom=1, max_genes=3)
-        cases.append(gen_case(rng, w))
-        cases.append(gen_case(rng, w))
+        if wi % 2 == 1:
+            edit_exons(rng, w, EDIT_STATS)
+        # both CIRCexplorer formats on every world
+        cases.append(gen_case(rng, w, ce3=False))
+        cases.append(gen_case(rng, w, ce3=True))
         if wi % 4 == 0:
             cases.append(gen_case(rng, w, malformed=True))
     return cases
@@ -419,7 +481,7 @@ def run(ctx):
              'the implementation produced a CircRNAModel for the row; rows are distinct by (world, transcript, blocks, thresholds)',
         samples=samples, distribution=dict(sorted(st['dist'].items())), disagreements=st['disagreements'],
         declarative_checked=st['declarative_checked'], corpus_cases=n_corpus, cases=len(cases),
-        correspondence_breaks=st['correspondence_breaks'], violations=viol,
+        correspondence_breaks=st['correspondence_breaks'], exon_edits=dict(EDIT_STATS), violations=viol,
         assumptions=['transcript strand = gene strand (FeatureLocation comparisons are modelled at equal strand)',
                      'FPBcirc / circscore and their thresholds are decimal numbers with at most 3 decimals (modelled as integers x1000)',
                      'isoformName exists in the annotation (an unknown transcript raises KeyError and aborts the run)'],
